@@ -12,7 +12,9 @@ for id in $ids; do
   for d in seeded/$id-*; do
     [ -f $d/patch.diff ] || continue
     git -C $S checkout -q -- . ; git -C $S clean -fdq
-    if ! git -C $S apply $PWD/$d/patch.diff 2>/tmp/lead/apply.err; then
+    pf=$PWD/$d/patch.diff
+    git -C $S apply --check $pf 2>/dev/null || { [ -f $PWD/$d/patch_ported.diff ] && pf=$PWD/$d/patch_ported.diff; }
+    if ! git -C $S apply $pf 2>/tmp/lead/apply.err; then
       echo "| $(basename $d) | - | patch no longer applies to /repo HEAD: $(head -c 200 /tmp/lead/apply.err | tr '\n|' '  ') | | |" >> $OUT; continue
     fi
     t0=$(date +%s)
@@ -29,9 +31,9 @@ bs=[(b.get("what","")+": "+str(b.get("detail",""))[:90]) for b in o.get("broken"
 print(("failures: "+" ;; ".join(fs) if fs else "")+(" broken: "+" ;; ".join(bs) if bs else ""))
 PY
 )
-    what=$(echo "$what" | tr '\n|' '  ')
+    what=$(echo "$what" | tr '\n|' '  ' | cut -c1-420)
     grep -v "^| $(basename $d) |" $OUT > $OUT.tmp; mv $OUT.tmp $OUT
-    echo "| $(basename $d) | $rc | ${line:-none} | $what | $((t1-t0))s |" >> $OUT
+    echo "| $(basename $d)$([ "$pf" != "$PWD/$d/patch.diff" ] && echo " (ported)") | $rc | ${line:-none} | $what | $((t1-t0))s |" >> $OUT
     echo "$(basename $d): rc=$rc $line"
   done
 done
